@@ -319,15 +319,17 @@ void cc_tsttable_remove_all (CC_TSTTable *table)
                 else if (parent->right == node)
                     parent->right = NULL;
 
-                if (node->eow)
+                if (node->eow) {
+                    table->mem_free(node->data);
                     table->size -= 1;
-
+                }
                 table->mem_free(node);
                 node = parent;
             } else {
-                if (node->eow)
+                if (node->eow) {
+                    table->mem_free(node->data);
                     table->size -= 1;
-
+                }
                 table->mem_free(node);
                 node = NULL;
             }
@@ -353,6 +355,7 @@ static void remove_eow_node(CC_TSTTable *table, CC_TSTTableNode *node)
     if (!node->eow)
         return;
 
+    table->mem_free(node->data);
     node->data            = NULL;
     CC_TSTTableNode * parent = node->parent;
 
